@@ -60,6 +60,16 @@ def case_st(draw):
     desc = draw(gen.poly_desc(kinds="if", max_terms=5, max_exp=3, max_ndim=3))
     if draw(st.integers(0, 3)) == 0 and desc["terms"]:
         desc["terms"] = desc["terms"][:1]  # single term
+    if draw(st.integers(0, 5)) == 0 and desc["terms"]:
+        # exponents whose storage-key characters are special in text: Unicode white space (59+e = 0x85, 0xA0,
+        # 0x2000, 0x2028, 0x3000, ...), the delimiters, and ordinary larger ones
+        e = draw(st.sampled_from([74, 101, 5701, 8133, 8135, 8173, 8174, 8180, 8228, 12229, 60, 200, 1000]))
+        rows = {tuple(t[0]) for t in desc["terms"]}
+        i = draw(st.integers(0, len(desc["terms"]) - 1))
+        row = list(desc["terms"][i][0])
+        row[draw(st.integers(0, len(row) - 1))] = e
+        if tuple(row) not in rows:
+            desc["terms"][i][0] = row
     case = {"mode": mode, "poly": desc,
             "view": bool(len(desc["shape"]) >= 2 and draw(st.integers(0, 5)) == 0)}
     if mode == "pickle":
